@@ -52,7 +52,7 @@ func init() {
 			if fd == nil {
 				return "", nil, fmt.Errorf("%s.%s not found", recv, name)
 			}
-			return squash(c.src(rel, fd.Body)), fd, nil
+			return valSquash(c.src(rel, fd.Body)), fd, nil
 		}
 		// header tests
 		for _, p := range [][2]string{{"isInlined", "isInlinedBody"}, {"IsOutOfBand", "isOutOfBandBody"}, {"IsNull", "isNullBody"}} {
@@ -75,12 +75,12 @@ func init() {
 		if len(paf.Body.List) < 2 {
 			return fmt.Errorf("PutAdaptiveFromInline: unexpected shape")
 		}
-		c.defString("putInlineSizeStmt", squash(c.src(tbf, paf.Body.List[0])))
+		c.defString("putInlineSizeStmt", valSquash(c.src(tbf, paf.Body.List[0])))
 		ifs, ok := paf.Body.List[1].(*ast.IfStmt)
 		if !ok {
 			return fmt.Errorf("PutAdaptiveFromInline: second statement is not the threshold test")
 		}
-		c.defString("putOutOfBandCond", squash(c.src(tbf, ifs.Cond)))
+		c.defString("putOutOfBandCond", valSquash(c.src(tbf, ifs.Cond)))
 		// blobLeafWriter.Write: calls in order
 		_, lw, err := body(bbf, bb, "blobLeafWriter", "Write")
 		if err != nil {
@@ -97,11 +97,11 @@ func init() {
 			switch x := n.(type) {
 			case *ast.AssignStmt:
 				if len(x.Lhs) == 1 && exprName(x.Lhs[0]) == "numAddrs" {
-					fan = squash(c.src(bbf, x))
+					fan = valSquash(c.src(bbf, x))
 				}
 			case *ast.ForStmt:
 				if x.Cond != nil && strings.Contains(c.src(bbf, x.Cond), "dataSize > 0") {
-					loop = squash(c.src(bbf, x))
+					loop = valSquash(c.src(bbf, x))
 				}
 			}
 			return true
@@ -160,7 +160,7 @@ func init() {
 					if !ok || !strings.HasSuffix(exprName(ce.Fun), "SerializeBytesToAddr") || len(ce.Args) != 4 {
 						return true
 					}
-					arg := "<" + squash(c.src(rel, ce.Args[2])) + ">"
+					arg := "<" + valSquash(c.src(rel, ce.Args[2])) + ">"
 					if inner, ok := ce.Args[2].(*ast.CallExpr); ok {
 						arg = exprName(inner.Fun)
 					}
